@@ -88,8 +88,8 @@ def check_instance(m, R, C, inst):
     """the rectangles of an offered instance partition the one-cells; each branch abuts the trunk within its extent"""
     rects = list(inst.rectangles())
     t = inst.trunk()
-    if rects[0] != t:
-        return 'trunk is not listed first'
+    if sum(1 for r in rects if r == t) != 1:
+        return 'the trunk is not among the rectangles exactly once'
     cover = {}
     for k, r in enumerate(rects):
         if r.empty():
